@@ -1,15 +1,15 @@
-SPECIFICATION Spec
+SPECIFICATION SimSpec
 CONSTANTS
-  WorkerCpus <- C_Workers
-  Menu <- C_Menu
-  Classes <- C_Classes
+  WorkerCpus <- B_Workers
+  Menu <- B_Menu
+  Classes <- B_Classes
   MaxLosses = 1
-  MaxCancels = 1
+  MaxCancels = 0
   MaxFails = 1
-  MaxLaunchFails = 0
+  MaxLaunchFails = 1
   PfReserve = 0
-  PfMax = 2
-  Eager = TRUE
+  PfMax = 1
+  Eager = FALSE
 CHECK_DEADLOCK FALSE
 INVARIANTS
   NoPanic
@@ -18,7 +18,6 @@ INVARIANTS
   C01_FinishedRan
   C01_JobAgrees
   C02_Registry
-  C02_QuiescentOk
   C02_ClosedJobsComplete
   C03_NeverStartedAfterFailedDep
   C03_PropagateAtRest
@@ -41,5 +40,3 @@ INVARIANTS
   C13_CompletedOnce
   C14_AbortAllOnExceed
   C14_ExceededStopped
-PROPERTIES
-  StepProps
